@@ -107,7 +107,14 @@ def shards(tier):
             out.append({'long': T, 'kind': k})
     for first in range(len(ROWS3)):
         out.append({'wide': first})          # an output layer of 33 000 symbols (indices beyond the int16 range)
+    for T in LONG_UNNORM_T:
+        out.append({'long_unnorm': T})
+    for t in (1, 2):
+        out.append({'faults': t})
     return out
+
+
+LONG_UNNORM_T = [260, 513, 700, 1100]        # lengths on both sides of 512 / 1024 (block sizes), not multiples of them
 
 
 WIDE_C = 33000
@@ -131,6 +138,18 @@ def run_shard(shard, ctx, tier):
     from mc.core import guarded_check
     import sys
     mod = sys.modules[__name__]
+    if 'long_unnorm' in shard:
+        T = shard['long_unnorm']
+        for pos in sorted({0, 1, T // 2, 255, 256, 511, 512, T - 2, T - 1} & set(range(T))):
+            for var in (0, 1, 2):
+                guarded_check(mod, {'long_unnorm': T, 'pos': pos, 'var': var}, ctx)
+        return
+    if 'faults' in shard:
+        R = len(rows_for(3))
+        for rows in itertools.product(range(R), repeat=shard['faults']):
+            for k in (2, 100):
+                guarded_check(mod, {'faults': list(rows), 'k': k}, ctx)
+        return
     if 'long' in shard:
         guarded_check(mod, {'long': shard['long'], 'kind': shard['kind']}, ctx)
         return
@@ -294,7 +313,74 @@ def check_unnorm(case, ctx):
     ctx.nontrivial(('unnorm', C, tuple(case['rows']), pos, var), 'unnormalised-variants')
 
 
+def check_long_unnorm(case, ctx):
+    """a long line with ONE frame that is not normalised (anywhere: first, middle, block borders, last) must be rejected like a short one"""
+    from pero_ocr.decoding.decoders import CTCPrefixLogRawNumpyDecoder
+    T, pos, var = case['long_unnorm'], case['pos'], case['var']
+    M = [list(r) for r in long_matrix(T, 1)]
+    if var == 0:
+        M[pos] = [x * 0.9 for x in M[pos]]
+    elif var == 1:
+        M[pos] = [x * 1.1 for x in M[pos]]
+    else:
+        M[pos][0] += 0.05
+    lp = to_log(M)
+    ctx.state(('long_unnorm', T, pos, var))
+    dec = CTCPrefixLogRawNumpyDecoder(LETTERS[3], 2)
+    ctx.executed()
+    try:
+        boh = dec(lp)
+    except ValueError:
+        ctx.outcome('rejected')
+        ctx.nontrivial(('long_unnorm', T, pos, var), 'unnormalised-frame-in-a-long-line')
+        return
+    ctx.violation('unnormalised-input-rejected', f'{ID}/unnormalised-accepted/long-line',
+                  f'a {T}-frame line whose frame {pos} is not normalised (sum {sum(M[pos]):.3f}) was decoded to {len(list(boh))} hypotheses instead of being rejected')
+
+
+def check_faults(case, ctx):
+    """environment answers (mc/faults.py): every single failing array allocation made by the decoder itself.  The decoder may report the failure;
+    hypotheses it returns nevertheless are hypotheses like any others: distinct, never over-counted, exact when nothing was pruned"""
+    from pero_ocr.decoding.decoders import CTCPrefixLogRawNumpyDecoder
+    from mc import faults
+    RA = rows_for(3)
+    M = [RA[i] for i in case['faults']]
+    lp = to_log(M)
+    k = case['k']
+    truth = {''.join(LETTERS[3][i] for i in t): math.log(p) for t, p in ctc_brute(M, 2).items()}
+    ctx.state(('faults', tuple(case['faults']), k))
+    inj = faults.Injector(faults.numpy_allocators(), faults.memory_error)
+    dec = CTCPrefixLogRawNumpyDecoder(LETTERS[3], k, relevant_logits_selector=select_all)
+
+    def call():
+        return [(h.transcript, float(h.vis_sc)) for h in dec(lp.copy())]
+    for kk, site, (what, val) in inj.explore(call):
+        ctx.executed()
+        if kk is None:
+            if what != 'ok':
+                raise val
+            continue
+        ctx.tag('fault-points')
+        if what == 'raised':
+            ctx.tag('failure-reported')
+            ctx.outcome(('raised', type(val).__name__))
+            continue
+        ctx.nontrivial(('fault', tuple(case['faults']), k, kk), 'hypotheses-returned-despite-a-failed-allocation')
+        ts = [t for t, _ in val]
+        bad = [(t, sc, truth.get(t, NEG)) for t, sc in val if not (sc <= truth.get(t, NEG) + EPS)]
+        missing = [t for t in truth if t not in ts] if k == 100 else []
+        if len(set(ts)) != len(ts) or bad or missing:
+            ctx.violation('never-over-counts', f'{ID}/hypotheses-returned-after-a-failed-allocation',
+                          f'k={k}, matrix {M}: with the allocation #{kk} ({site[2]} in {site[0]}:{site[1]}) raising MemoryError the decoder returned {val}; '
+                          f'over-counted (transcript, score, true log-probability) = {bad}, missing transcripts = {missing}')
+            return
+
+
 def check_case(case, ctx):
+    if 'long_unnorm' in case:
+        return check_long_unnorm(case, ctx)
+    if 'faults' in case:
+        return check_faults(case, ctx)
     if 'unnorm' in case:
         return check_unnorm(case, ctx)
     if 'long' in case:
@@ -419,5 +505,6 @@ def describe(tier):
                         'scores are compared within 1e-9', 'blank is the last symbol'],
         'min_nontrivial': 100,
         'required_tags': ['beam-pruned', 'prefix-joining', 'all-pruned-shortcut', 'selector-pruned', 'unpruned-nodes',
-                          'unnormalised-variants', 'tie-at-beam-boundary', 'float32-and-reused-decoder', 'more-than-255-frames', 'output-layer-beyond-int16', 'combining-mark-letter-table'],
+                          'unnormalised-variants', 'tie-at-beam-boundary', 'float32-and-reused-decoder', 'more-than-255-frames', 'output-layer-beyond-int16', 'combining-mark-letter-table',
+                          'unnormalised-frame-in-a-long-line', 'fault-points', 'failure-reported'],
     }
